@@ -291,13 +291,13 @@ theorem AP.notPlaced {ex : List SEvent} {n : Int} (s s' : SimS) (h : AP RunOK ex
   exact h.1.eids.finLt e' this hf
 
 set_option maxHeartbeats 1600000 in
-theorem placementPlace_spec (n : Int) (ex : List SEvent) (ev : SEvent) (t : TaskId) (p : PlacementS) (g : GraphS)
+theorem placementPlace_rspec (n : Int) (ex : List SEvent) (ev : SEvent) (t : TaskId) (p : PlacementS) (g : GraphS)
     (h : g.isReadyToRun t.t = true) (hev : ev.ev.time = n) :
     ⦃fun s => ⌜(AP RunOK ex s ∧ s.now = n) ∧ s.graphs[t.g]? = some g⌝⦄ placementPlace ev t p g h
     ⦃post⟨fun _ => RA n ex, fun _ s => ⌜WInv s⌝⟩⦄ := by
-  have h_prow := placementRow_spec n ex
-  have h_row := row_spec n ex
-  mvcgen [placementPlace, getTask, getGraph, getPool, setPool, raisePlace, logE, liftTape, liftE, startTask, setGraph,
+  have h_prow := placementRow_rspec n ex
+  have h_row := row_rspec n ex
+  rmvcgen [placementPlace, getTask, getGraph, getPool, setPool, raisePlace, logE, liftTape, liftE, startTask, setGraph,
     raiseTask, mkEvent, uniqueName, addEvent, h_prow, h_row]
   all_goals first
     | frame_close
@@ -329,11 +329,11 @@ theorem placementPlace_spec (n : Int) (ex : List SEvent) (ev : SEvent) (t : Task
     | (ap_step; exact EF_erase _ _ _)
 
 /-- TASK_PLACEMENT, handled at the clock value `n` (the time of the event). -/
-theorem handleTaskPlacement_spec (n : Int) (ex : List SEvent) (ev : SEvent) (hev : ev.ev.time = n) :
+theorem handleTaskPlacement_rspec (n : Int) (ex : List SEvent) (ev : SEvent) (hev : ev.ev.time = n) :
     KeepsR n ex (handleTaskPlacement ev) := by
-  have h_pp := fun t p g h => placementPlace_spec n ex ev t p g h hev
-  have h_nr := placementNotReady_spec n ex
-  mvcgen [handleTaskPlacement, getGraph, h_pp, h_nr]
+  have h_pp := fun t p g h => placementPlace_rspec n ex ev t p g h hev
+  have h_nr := placementNotReady_rspec n ex
+  rmvcgen [handleTaskPlacement, getGraph, h_pp, h_nr]
   all_goals first
     | frame_close
     | (rs_hyps h => exact h.1)
